@@ -47,6 +47,16 @@ def gen_schedule(rng, length, maxctx):
 
 def gen(rng, n, tier):
     for i in range(n):
+        if rng.random() < 0.05:
+            # nested re-entry of ONE manager object: @config.enable_free_arithmetics(b) on a recursive function, left normally or by an
+            # exception at the deepest level; the schedule is what the model sees
+            depth = rng.randint(1, 4); b = rng.choice("TF"); rz = rng.choice("TF"); pk = rng.choice(["add", "neg", "imul", "negmul"])
+            sched = []
+            for _ in range(depth + 1): sched += [[0, ["enter", b]], [0, ["read", pk]]]
+            sched += [[0, ["raise"]]] if rz == "T" else [[0, ["exit"]] for _ in range(depth + 1)]
+            sched.append([0, ["read", pk]])
+            yield [["bucket", "decorator/depth%d" % depth], ["env", "none"], ["schedule", sched], ["decorator", [depth, b, rz, pk]]]
+            continue
         env = rng.choice(ENVS)
         length = rng.choice([3, 6, 10, 16, 25, 40])
         maxctx = rng.choice([1, 2, 3, 4, 6])
@@ -71,8 +81,31 @@ def _close():
         try: p.stdin.close(); p.wait(timeout=5)
         except Exception: p.kill()
 
+def _decorated(d):
+    """the same nesting spelled with the manager as a decorator of a recursive function (one manager object, re-entered)"""
+    import os
+    from physt.config import config
+    from harness.ctxserver import probe
+    assert os.environ.get("PHYST_FREE_ARITHMETICS") is None
+    depth, b, rz, pk = d["decorator"]
+    obs = []
+    def read(): return [bool(config.free_arithmetics), probe(pk)]
+    @config.enable_free_arithmetics(b == "T")
+    def rec(n):
+        obs.append("-"); obs.append(read())
+        if n > 0:
+            rec(n - 1)
+        elif rz == "T":
+            obs.append("-"); raise KeyError("leave every level")
+        obs.append("-")
+    try: rec(depth)
+    except KeyError: pass
+    obs.append(read())
+    return obs
+
 def impl(case):
     d = sx.rec(case)
+    if "decorator" in d: return _decorated(d)
     p = _child(d["env"])
     try:
         p.stdin.write(sx.dumps(d["schedule"]) + "\n"); p.stdin.flush()
